@@ -1,9 +1,506 @@
-//! C20 — (module under construction)
-use crate::report::{Coverage, Reporter};
-use serde_json::Value;
+//! C20 — concurrent readers of a shared store see sequential results.
+//! Stateless exploration of thread schedules of the real code under a controlled scheduler: real OS threads gated by a
+//! baton; the H2 yield callback (before every lock operation on the shared serialisation mode / changed flags) parks the
+//! calling thread and hands control back; DFS over schedules with iterative preemption bounding.
 
-pub fn run(_rep: &Reporter) -> Coverage {
-    Coverage::default()
+use crate::report::{Coverage, Reporter, Tier};
+use crate::util::{catch, fnv64, msg_class};
+use serde_json::{json, Value};
+use stam::*;
+use std::cell::RefCell;
+use std::sync::{Arc, Condvar, Mutex};
+
+// ---------------------------------------------------------------------------------------------
+// controlled scheduler
+
+struct St {
+    turn: Option<usize>,
+    parked: Vec<Option<&'static str>>,
+    finished: Vec<bool>,
 }
 
-pub fn replay(_rep: &Reporter, _case: &Value) {}
+struct Sched {
+    m: Mutex<St>,
+    cv: Condvar,
+}
+
+thread_local! {
+    static WORKER: RefCell<Option<(usize, Arc<Sched>)>> = RefCell::new(None);
+}
+
+/// the H2 callback: a managed thread parks here until the scheduler gives it the baton again
+fn yield_cb(site: &'static str) {
+    let me = WORKER.with(|w| w.borrow().clone());
+    if let Some((id, sched)) = me {
+        sched.park(id, site);
+    }
+}
+
+impl Sched {
+    fn new(n: usize) -> Arc<Sched> {
+        Arc::new(Sched { m: Mutex::new(St { turn: None, parked: vec![None; n], finished: vec![false; n] }), cv: Condvar::new() })
+    }
+    fn park(&self, id: usize, site: &'static str) {
+        let mut st = self.m.lock().unwrap();
+        st.parked[id] = Some(site);
+        if st.turn == Some(id) {
+            st.turn = None;
+        }
+        self.cv.notify_all();
+        while st.turn != Some(id) {
+            st = self.cv.wait(st).unwrap();
+        }
+        st.parked[id] = None;
+    }
+    fn finish(&self, id: usize) {
+        let mut st = self.m.lock().unwrap();
+        st.finished[id] = true;
+        if st.turn == Some(id) {
+            st.turn = None;
+        }
+        self.cv.notify_all();
+    }
+}
+
+#[derive(Clone, Debug)]
+pub struct Point {
+    /// enabled threads in canonical order: the running thread first if still enabled, then ascending ids
+    pub enabled: Vec<usize>,
+    pub chosen: usize, // index into enabled
+    pub running_still_enabled: bool,
+    pub sites: Vec<&'static str>,
+}
+
+pub struct Execution {
+    pub points: Vec<Point>,
+    pub results: Vec<Result<String, String>>,
+    pub deadlock: bool,
+    pub yields_per_thread: Vec<usize>,
+}
+
+/// Run the bodies once under the scheduler, following `prefix` (indices into the enabled lists) and taking choice 0
+/// (no preemption) afterwards. A choice outside the enabled list is a hard error (schedule divergence).
+fn run_schedule(store: &AnnotationStore, bodies: &[Body], prefix: &[usize]) -> Result<Execution, String> {
+    let n = bodies.len();
+    let sched = Sched::new(n);
+    let mut results: Vec<Result<String, String>> = vec![Err("not run".into()); n];
+    let mut points: Vec<Point> = Vec::new();
+    let mut deadlock = false;
+    let mut yields = vec![0usize; n];
+    let mut diverged: Option<String> = None;
+    std::thread::scope(|scope| {
+        let mut handles = Vec::new();
+        for (id, body) in bodies.iter().enumerate() {
+            let sched = sched.clone();
+            let body = *body;
+            handles.push(scope.spawn(move || {
+                WORKER.with(|w| *w.borrow_mut() = Some((id, sched.clone())));
+                sched.park(id, "start");
+                let r = catch(|| body.run(store));
+                WORKER.with(|w| *w.borrow_mut() = None);
+                sched.finish(id);
+                r
+            }));
+        }
+        // the scheduler
+        let mut last: Option<usize> = None;
+        loop {
+            let mut st = sched.m.lock().unwrap();
+            while !(st.turn.is_none() && (0..n).all(|i| st.finished[i] || st.parked[i].is_some())) {
+                st = sched.cv.wait(st).unwrap();
+            }
+            let mut enabled: Vec<usize> = (0..n).filter(|i| st.parked[*i].is_some()).collect();
+            if enabled.is_empty() {
+                deadlock = !(0..n).all(|i| st.finished[i]);
+                break;
+            }
+            let running_still_enabled = last.map(|l| enabled.contains(&l)).unwrap_or(false);
+            if let Some(l) = last {
+                if running_still_enabled {
+                    enabled.retain(|x| *x != l);
+                    enabled.insert(0, l);
+                }
+            }
+            let k = points.len();
+            let choice = if k < prefix.len() { prefix[k] } else { 0 };
+            if choice >= enabled.len() {
+                diverged = Some(format!("schedule divergence at point {}: choice {} but only {} threads enabled", k, choice, enabled.len()));
+                // let everything run to completion in default order so that the threads can be joined
+                let c = 0;
+                let t = enabled[c];
+                st.turn = Some(t);
+                last = Some(t);
+                sched.cv.notify_all();
+                continue;
+            }
+            let sites = enabled.iter().map(|i| st.parked[*i].unwrap()).collect();
+            let t = enabled[choice];
+            if st.parked[t] != Some("start") {
+                yields[t] += 1;
+            }
+            points.push(Point { enabled: enabled.clone(), chosen: choice, running_still_enabled, sites });
+            st.turn = Some(t);
+            last = Some(t);
+            sched.cv.notify_all();
+        }
+        for (i, h) in handles.into_iter().enumerate() {
+            results[i] = match h.join() {
+                Ok(r) => r,
+                Err(_) => Err("thread panicked outside catch".into()),
+            };
+        }
+    });
+    if let Some(d) = diverged {
+        return Err(d);
+    }
+    Ok(Execution { points, results, deadlock, yields_per_thread: yields })
+}
+
+// ---------------------------------------------------------------------------------------------
+// harness bodies and stores
+
+#[derive(Clone, Copy, Debug, PartialEq, Eq)]
+pub enum Body {
+    /// store.to_json_string
+    StoreJson,
+    /// first dataset serialised to a string through ToJson
+    DatasetJson,
+    /// first resource serialised to a string through ToJson
+    ResourceJson,
+    /// a query and a parallel iteration (touches no interior-mutable state)
+    QueryParallel,
+    /// second dataset (if any) to a string
+    Dataset2Json,
+}
+
+impl Body {
+    fn run(&self, store: &AnnotationStore) -> String {
+        match self {
+            Body::StoreJson => match store.to_json_string(store.config()) {
+                Ok(s) => s,
+                Err(e) => format!("ERR {}", e),
+            },
+            Body::DatasetJson | Body::Dataset2Json => {
+                let idx = if *self == Body::DatasetJson { 0 } else { 1 };
+                match store.datasets().nth(idx) {
+                    Some(ds) => match ToJson::to_json_string(ds.as_ref(), ds.as_ref().config()) {
+                        Ok(s) => s,
+                        Err(e) => format!("ERR {}", e),
+                    },
+                    None => "no dataset".into(),
+                }
+            }
+            Body::ResourceJson => match store.resources().next() {
+                Some(r) => match ToJson::to_json_string(r.as_ref(), r.as_ref().config()) {
+                    Ok(s) => s,
+                    Err(e) => format!("ERR {}", e),
+                },
+                None => "no resource".into(),
+            },
+            Body::QueryParallel => {
+                use rayon::prelude::*;
+                let mut out = String::new();
+                if let Ok((q, _)) = Query::parse("SELECT ANNOTATION ?a WHERE DATA \"s0\" \"k0\";") {
+                    if let Ok(iter) = store.query(q) {
+                        out.push_str(&format!("rows={};", iter.count()));
+                    }
+                }
+                let mut texts: Vec<String> = store.annotations().parallel().map(|a| format!("{:?}:{}", a.id(), a.text_join("|"))).collect();
+                texts.sort();
+                out.push_str(&texts.join(","));
+                out
+            }
+        }
+    }
+    fn name(&self) -> &'static str {
+        match self {
+            Body::StoreJson => "store.to_json_string",
+            Body::DatasetJson => "dataset.to_json_string",
+            Body::ResourceJson => "resource.to_json_string",
+            Body::QueryParallel => "query+parallel",
+            Body::Dataset2Json => "dataset2.to_json_string",
+        }
+    }
+}
+
+#[derive(Clone, Copy, Debug, PartialEq, Eq)]
+pub enum StoreKind {
+    /// everything inline
+    Inline,
+    /// datasets and resource stand-off (@include), loaded from files: changed = false
+    Standoff,
+    /// as Standoff, then an annotation is added whose data goes into a stand-off dataset: changed = true
+    StandoffChanged,
+}
+
+fn base_doc_files(dir: &str) -> String {
+    let _ = std::fs::remove_dir_all(dir);
+    std::fs::create_dir_all(dir).expect("workdir");
+    std::fs::write(format!("{}/r0", dir), "a\u{e9} \u{1d11e}d").unwrap();
+    std::fs::write(
+        format!("{}/s0.annotationset.stam.json", dir),
+        r#"{"@type":"AnnotationDataSet","@id":"s0","keys":[{"@type":"DataKey","@id":"k0"}],"data":[{"@type":"AnnotationData","@id":"D0","key":"k0","value":{"@type":"String","value":"v"}}]}"#,
+    )
+    .unwrap();
+    std::fs::write(
+        format!("{}/s1.annotationset.stam.json", dir),
+        r#"{"@type":"AnnotationDataSet","@id":"s1","keys":[{"@type":"DataKey","@id":"k0"}],"data":[{"@type":"AnnotationData","@id":"E0","key":"k0","value":{"@type":"Int","value":1}}]}"#,
+    )
+    .unwrap();
+    let root = r#"{"@type":"AnnotationStore","@id":"root",
+"resources":[{"@type":"TextResource","@include":"r0"}],
+"annotationsets":[{"@type":"AnnotationDataSet","@id":"s0","@include":"s0.annotationset.stam.json"},{"@type":"AnnotationDataSet","@id":"s1","@include":"s1.annotationset.stam.json"}],
+"annotations":[{"@type":"Annotation","@id":"a0","target":{"@type":"TextSelector","resource":"r0","offset":{"@type":"Offset","begin":{"@type":"BeginAlignedCursor","value":0},"end":{"@type":"BeginAlignedCursor","value":3}}},"data":[{"@type":"AnnotationData","@id":"D0","set":"s0"}]},
+{"@type":"Annotation","@id":"a1","target":{"@type":"TextSelector","resource":"r0","offset":{"@type":"Offset","begin":{"@type":"BeginAlignedCursor","value":3}},"end":{"@type":"EndAlignedCursor","value":0}}},"data":[{"@type":"AnnotationData","@id":"E0","set":"s1"}]}]}"#;
+    let path = format!("{}/root.store.stam.json", dir);
+    std::fs::write(&path, root.replace("\"value\":3}},\"end\"", "\"value\":3},\"end\"")).unwrap();
+    path
+}
+
+pub fn build_store(kind: StoreKind, dir: &str) -> AnnotationStore {
+    match kind {
+        StoreKind::Inline => {
+            let mut s = AnnotationStore::new(Config::default());
+            s.add_resource(TextResourceBuilder::new().with_id("r0").with_text("a\u{e9} \u{1d11e}d")).unwrap();
+            s.annotate(AnnotationBuilder::new().with_id("a0").with_target(SelectorBuilder::textselector("r0", Offset::simple(0, 3))).with_data_with_id("s0", "k0", "v", "D0")).unwrap();
+            s.annotate(
+                AnnotationBuilder::new()
+                    .with_id("a1")
+                    .with_target(SelectorBuilder::textselector("r0", Offset::new(Cursor::BeginAligned(3), Cursor::EndAligned(0))))
+                    .with_data_with_id("s1", "k0", 1isize, "E0"),
+            )
+            .unwrap();
+            s
+        }
+        StoreKind::Standoff | StoreKind::StandoffChanged => {
+            let root = base_doc_files(dir);
+            let mut s = AnnotationStore::from_file(&root, Config::default().with_use_include(true)).expect("load stand-off store");
+            if kind == StoreKind::StandoffChanged {
+                s.annotate(AnnotationBuilder::new().with_id("a2").with_target(SelectorBuilder::resourceselector("r0")).with_data_with_id("s0", "k1", "w", "D1")).unwrap();
+            }
+            s
+        }
+    }
+}
+
+// ---------------------------------------------------------------------------------------------
+// exploration
+
+pub struct ExploreStats {
+    pub schedules: u64,
+    pub outcomes: std::collections::BTreeSet<u64>,
+    pub max_yields: usize,
+    pub capped: bool,
+}
+
+fn schedule_json(x: &Execution) -> Value {
+    json!(x.points.iter().map(|p| p.chosen).collect::<Vec<_>>())
+}
+
+#[allow(clippy::too_many_arguments)]
+fn explore_rec(
+    rep: &Reporter,
+    kind: StoreKind,
+    dir: &str,
+    bodies: &[Body],
+    solo: &[String],
+    bound: usize,
+    prefix: Vec<usize>,
+    stats: &mut ExploreStats,
+    cap: u64,
+) {
+    if stats.schedules >= cap {
+        stats.capped = true;
+        return;
+    }
+    let store = build_store(kind, dir);
+    let x = match run_schedule(&store, bodies, &prefix) {
+        Ok(x) => x,
+        Err(d) => {
+            // a divergence while replaying a prefix means the harness does not own all nondeterminism: machinery failure
+            println!("MACHINERY: {}", d);
+            std::process::exit(2);
+        }
+    };
+    stats.schedules += 1;
+    stats.max_yields = stats.max_yields.max(x.yields_per_thread.iter().copied().max().unwrap_or(0));
+    check_execution(rep, kind, bodies, solo, &x, &store, stats);
+    // extend: alternatives at every later point within the preemption bound
+    let mut preemptions = 0usize;
+    let choices: Vec<usize> = x.points.iter().map(|p| p.chosen).collect();
+    for i in 0..x.points.len() {
+        let p = &x.points[i];
+        if i >= prefix.len() {
+            let cost_alt = preemptions + if p.running_still_enabled { 1 } else { 0 };
+            if cost_alt <= bound {
+                for alt in 1..p.enabled.len() {
+                    let mut np = choices[..i].to_vec();
+                    np.push(alt);
+                    explore_rec(rep, kind, dir, bodies, solo, bound, np, stats, cap);
+                }
+            }
+        }
+        if p.running_still_enabled && p.chosen != 0 {
+            preemptions += 1;
+        }
+    }
+}
+
+fn check_execution(rep: &Reporter, kind: StoreKind, bodies: &[Body], solo: &[String], x: &Execution, store: &AnnotationStore, stats: &mut ExploreStats) {
+    let names: Vec<&str> = bodies.iter().map(|b| b.name()).collect();
+    let case = || json!({"store": format!("{:?}", kind), "bodies": names, "schedule": schedule_json(x)});
+    let combo = names.join("||");
+    let mut outcome_key = String::new();
+    if x.deadlock {
+        rep.fail(&format!("{:?}|{}|deadlock", kind, combo), x.points.len() as u64, || "no thread enabled although not all have finished".into(), case);
+    }
+    for (i, r) in x.results.iter().enumerate() {
+        match r {
+            Err(p) => {
+                outcome_key.push_str(&format!("P{}", msg_class(p)));
+                rep.fail(&format!("{:?}|{}|thread={}|panic:{}", kind, combo, names[i], msg_class(p)), x.points.len() as u64, || format!("thread {} panicked", names[i]), case);
+            }
+            Ok(s) => {
+                outcome_key.push_str(&format!("{:x};", fnv64(s.as_bytes())));
+                if *s != solo[i] {
+                    // how does it differ: stand-off member emitted inline, or @include emitted instead of content
+                    let how = if s.matches("@include").count() < solo[i].matches("@include").count() {
+                        "standoff-member-emitted-inline"
+                    } else if s.matches("@include").count() > solo[i].matches("@include").count() {
+                        "include-emitted-instead-of-content"
+                    } else {
+                        "differs"
+                    };
+                    let mut others: Vec<&str> = names.iter().enumerate().filter(|(j, _)| *j != i).map(|(_, n)| *n).collect();
+                    others.sort();
+                    others.dedup();
+                    rep.fail(
+                        &format!("{:?}|victim={}|{}|concurrent-toggler={}", kind, names[i], how, if others.iter().any(|o| o.ends_with("to_json_string")) { "yes" } else { "no" }),
+                        x.points.len() as u64,
+                        || format!("thread {} returned a result different from running alone ({} vs {} bytes); schedule {:?}", names[i], s.len(), solo[i].len(), x.points.iter().map(|p| p.chosen).collect::<Vec<_>>()),
+                        case,
+                    );
+                }
+            }
+        }
+    }
+    // afterwards a single reader must again see the sequential result (no state left behind)
+    let after = catch(|| Body::StoreJson.run(store));
+    let solo_store = catch(|| Body::StoreJson.run(&build_store(kind, &format!("{}-solo", "/verif/.work/c20"))));
+    if let (Ok(a), Ok(b)) = (&after, &solo_store) {
+        outcome_key.push_str(&format!("A{:x}", fnv64(a.as_bytes())));
+        if a != b {
+            rep.fail(&format!("{:?}|{}|after|store-serialisation-differs-afterwards", kind, combo), x.points.len() as u64, || "a store serialisation after all readers finished differs from the sequential one (state left behind)".into(), case);
+        }
+    }
+    stats.outcomes.insert(fnv64(outcome_key.as_bytes()));
+}
+
+fn combos(tier: Tier) -> Vec<Vec<Body>> {
+    let b = [Body::StoreJson, Body::DatasetJson, Body::ResourceJson, Body::QueryParallel, Body::Dataset2Json];
+    let mut v: Vec<Vec<Body>> = Vec::new();
+    for i in 0..b.len() {
+        for j in i..b.len() {
+            v.push(vec![b[i], b[j]]);
+        }
+    }
+    if tier == Tier::Thorough {
+        for i in 0..b.len() {
+            for j in i..b.len() {
+                for k in j..b.len() {
+                    v.push(vec![b[i], b[j], b[k]]);
+                }
+            }
+        }
+    }
+    v
+}
+
+pub fn run(rep: &Reporter) -> Coverage {
+    stam::verif::set_yield_callback(Some(yield_cb));
+    let dir = format!("/verif/.work/c20-{}", std::process::id());
+    let bound = rep.tier.pick(2, 3);
+    let cap: u64 = rep.tier.pick(20_000, 400_000);
+    let mut total = 0u64;
+    let mut outcomes_total = 0usize;
+    let mut per = Vec::new();
+    let mut capped_any = false;
+    let mut max_yields = 0;
+    let mut samples = Vec::new();
+    for kind in [StoreKind::Inline, StoreKind::Standoff, StoreKind::StandoffChanged] {
+        for bodies in combos(rep.tier) {
+            // solo results on fresh copies of the same store
+            let solo: Vec<String> = bodies.iter().map(|b| b.run(&build_store(kind, &dir))).collect();
+            // determinism: the default schedule twice must give identical observations
+            let s1 = build_store(kind, &dir);
+            let x1 = run_schedule(&s1, &bodies, &[]).expect("default schedule");
+            let s2 = build_store(kind, &dir);
+            let x2 = run_schedule(&s2, &bodies, &[]).expect("default schedule");
+            if x1.results != x2.results || x1.points.len() != x2.points.len() {
+                println!("MACHINERY: replaying the default schedule twice gave different observations for {:?} {:?}", kind, bodies);
+                std::process::exit(2);
+            }
+            let mut stats = ExploreStats { schedules: 0, outcomes: Default::default(), max_yields: 0, capped: false };
+            // iterative preemption bounding: the final bound subsumes the lower ones; run it directly (the search is simplest-first)
+            explore_rec(rep, kind, &dir, &bodies, &solo, bound, vec![], &mut stats, cap);
+            total += stats.schedules;
+            outcomes_total += stats.outcomes.len();
+            capped_any |= stats.capped;
+            max_yields = max_yields.max(stats.max_yields);
+            if samples.len() < 4 && stats.schedules > 3 {
+                samples.push(json!({"store": format!("{:?}", kind), "bodies": bodies.iter().map(|b| b.name()).collect::<Vec<_>>(), "default_schedule_points": x1.points.iter().map(|p| json!({"enabled": p.enabled, "sites": p.sites})).collect::<Vec<_>>()}));
+            }
+            per.push(json!({"store": format!("{:?}", kind), "bodies": bodies.iter().map(|b| b.name()).collect::<Vec<_>>(), "schedules": stats.schedules, "distinct_outcomes": stats.outcomes.len(), "max_yield_points_per_thread": stats.max_yields, "capped": stats.capped}));
+        }
+    }
+    stam::verif::set_yield_callback(None);
+    let _ = std::fs::remove_dir_all(&dir);
+    let _ = std::fs::remove_dir_all("/verif/.work/c20-solo");
+    let mut cov = Coverage::default();
+    cov.states = outcomes_total as u64;
+    cov.transitions = total;
+    cov.evaluations = total;
+    cov.traces_validated = total;
+    cov.distinct_nontrivial = per.iter().filter(|p| p["schedules"].as_u64().unwrap_or(0) > 1).count() as u64;
+    cov.rule = format!("for every store kind (inline; stand-off members loaded from files; stand-off with a changed dataset) and every multiset of {} reader bodies (store / dataset / second dataset / resource serialisation to a string, query + parallel iteration): all schedules of the real code with at most {} preemptions (CHESS-style: switching away from a still-runnable thread costs 1), threads gated at the H2 yield points before every lock operation on the shared serialisation mode and changed flags; oracle: each thread's return value equals its value when run alone on a fresh copy of the store, and a store serialisation afterwards equals the sequential one; states = distinct outcome vectors, transitions = schedules executed; non-trivial = thread sets with more than one schedule", rep.tier.pick("2", "2 and 3"), bound);
+    cov.samples = samples;
+    cov.exhaustive = !capped_any;
+    cov.extra.insert("preemption_bound".into(), json!(bound));
+    cov.extra.insert("schedule_cap_per_thread_set".into(), json!(cap));
+    cov.extra.insert("max_yield_points_per_thread".into(), json!(max_yields));
+    cov.extra.insert("thread_sets".into(), json!(per));
+    cov.assumptions = vec![
+        "sequentially consistent interleavings at lock operations; no data races assumed (safe Rust + RwLock); weak-memory effects are not explored".into(),
+        "rayon worker threads inside .parallel() run free: that body touches no interior-mutable state (its yield-point count is reported)".into(),
+        "store.save() racing on the same files is outside this harness (file contents are not under the scheduler)".into(),
+    ];
+    cov
+}
+
+pub fn replay(rep: &Reporter, case: &Value) {
+    stam::verif::set_yield_callback(Some(yield_cb));
+    let kind = match case["store"].as_str().unwrap_or("") {
+        "Inline" => StoreKind::Inline,
+        "Standoff" => StoreKind::Standoff,
+        _ => StoreKind::StandoffChanged,
+    };
+    let all = [Body::StoreJson, Body::DatasetJson, Body::ResourceJson, Body::QueryParallel, Body::Dataset2Json];
+    let bodies: Vec<Body> = case["bodies"].as_array().map(|a| a.iter().filter_map(|n| all.iter().find(|b| Some(b.name()) == n.as_str()).copied()).collect()).unwrap_or_default();
+    let prefix: Vec<usize> = case["schedule"].as_array().map(|a| a.iter().filter_map(|x| x.as_u64().map(|v| v as usize)).collect()).unwrap_or_default();
+    let dir = format!("/verif/.work/c20-{}", std::process::id());
+    println!("replay C20: store={:?} bodies={:?} schedule={:?}", kind, bodies.iter().map(|b| b.name()).collect::<Vec<_>>(), prefix);
+    let solo: Vec<String> = bodies.iter().map(|b| b.run(&build_store(kind, &dir))).collect();
+    let store = build_store(kind, &dir);
+    match run_schedule(&store, &bodies, &prefix) {
+        Ok(x) => {
+            for (i, p) in x.points.iter().enumerate() {
+                println!("  point {}: enabled {:?} at {:?} -> chose thread {}", i, p.enabled, p.sites, p.enabled[p.chosen]);
+            }
+            let mut stats = ExploreStats { schedules: 0, outcomes: Default::default(), max_yields: 0, capped: false };
+            check_execution(rep, kind, &bodies, &solo, &x, &store, &mut stats);
+        }
+        Err(d) => println!("  {}", d),
+    }
+    stam::verif::set_yield_callback(None);
+    let _ = std::fs::remove_dir_all(&dir);
+}
